@@ -2084,6 +2084,9 @@ package xpath
 //@   mode int
 //@   props C06 C10 C17
 //@   ensures[not-after-slash@C17] noSlash(p.r.prevtyp)     // a relative path ends with a step, never with the slash that announces one
+//@   loop 0 invariant[starts-from-input@C10] called(parseStep, 0) || opnd == n     // the first step continues the path it was handed
+//@   loop 0 invariant[step-on-path@C10] called(parseStep, 0) ==> argval(parseStep, 0, 0) == at(0, opnd) && (opnd == retval(parseStep, 0) || called(newAxisNode, 0) && opnd == retval(newAxisNode, 0) && is(opnd, *axisNode) && axisIs(opnd, "descendant-or-self", allNode, "", "", retval(parseStep, 0)))     // every step is parsed onto the path so far; '//' inserts descendant-or-self::node() over it
+//@   ensures[result-is-last-step@C10!!] result == retval(parseStep, 0)
 //@   requires[depth@C06] p != nil && 0 <= p.d && p.d <= 200
 //@   maypanic
 //@   modifies heap(F:scanner.*), p.d
